@@ -184,6 +184,21 @@ PROPS = {
         phases=[P(kind="fuzz", bin="c13_limits", runs_quick=14000, runs_thorough=3000000, workers_quick=12, workers_thorough=16, max_len=1024, rss=4000, timeout=120, detect_leaks=0)],
         floor_quick=200, floor_thorough=30000,
     ),
+    "C15": P(
+        title="passed file descriptors arrive intact and are never leaked",
+        level="exploration",
+        technique="stateful model-based testing with a resource-conservation invariant: libFuzzer-generated histories of fd-carrying messages on an in-process bus with raw clients; received descriptors are identified by fstat/lseek, and the process' descriptor table is compared with a per-connection surplus model at every quiescent point",
+        level_text=("Exploration: raw clients that did or did not negotiate fd passing attach 0-6 memfd descriptors (distinct inodes and file offsets) by sendmsg to messages whose UNIX_FDS header "
+                    "is smaller than, equal to or larger than the attached count, addressed to a capable recipient, a recipient without fd passing, an unowned name, a policy-denied interface; some "
+                    "messages are sent only up to their first 24 bytes (descriptors pending) and completed later or never; clients close at any point; virtual time passes beyond pending_fd_timeout. "
+                    "Checked: descriptors arrive only on negotiated connections, in the announced number and order, as the same open files; senders of messages announcing more descriptors than "
+                    "received, or attaching more than max_message_unix_fds allows, are disconnected; surplus descriptors keep a connection only until pending_fd_timeout; and at every quiescent point "
+                    "the number of open descriptors in the process equals baseline + 2 per live client + the model's surplus, returning to the baseline after all clients closed."),
+        level_note="The bus runs in-process, so 'the bus' descriptor table' is /proc/self/fd minus what the harness owns (it closes every received descriptor at once); max_incoming_unix_fds flow control and queue-full paths are not driven; descriptors attached to a later byte of a message are not generated ([U]: the kernel may discard them).",
+        rule=("case = history decoded from fuzzer input. Non-trivial = >=1 fd-carrying message that ended on a failure path (sender disconnected, denied, incapable recipient, undeliverable, pending too long, closed with surplus); distinct = FNV-1a of the log with unique names renamed."),
+        phases=[P(kind="fuzz", bin="c15_fds", runs_quick=12000, runs_thorough=2500000, workers_quick=12, workers_thorough=16, max_len=1024, rss=4000, timeout=120, detect_leaks=0)],
+        floor_quick=400, floor_thorough=30000,
+    ),
     "C16": P(
         title="grammar predicates",
         level="exploration",
